@@ -576,8 +576,14 @@ func callSSA(i *interpreter, caller *frame, callpos token.Pos, fn *ssa.Function,
 	} else if fn.Blocks == nil {
 		ensureBuilt(fn)
 	}
-	if fn.Pkg != nil && fn.Pkg.Pkg != nil && strings.HasPrefix(fn.Pkg.Pkg.Path(), "github.com/MichaelMure/git-bug") {
-		i.stats.Funcs[fn.String()]++
+	if i.ps != nil {
+		pk := fn.Pkg
+		if pk == nil && fn.Origin() != nil {
+			pk = fn.Origin().Pkg
+		}
+		if pk != nil && pk.Pkg != nil && strings.HasPrefix(pk.Pkg.Path(), "github.com/MichaelMure/git-bug") {
+			i.stats.Funcs[stripTypeArgs(fn.String())]++
+		}
 	}
 	i.depth++
 	if i.depth > 3000 {
@@ -753,3 +759,20 @@ func doRecover(caller *frame) value {
 	return iface{}
 }
 
+
+// stripTypeArgs removes [...] instantiation arguments from a function name.
+func stripTypeArgs(s string) string {
+	var sb strings.Builder
+	depth := 0
+	for _, c := range s {
+		switch {
+		case c == '[':
+			depth++
+		case c == ']':
+			depth--
+		case depth == 0:
+			sb.WriteRune(c)
+		}
+	}
+	return sb.String()
+}
